@@ -2,7 +2,9 @@
 Engine `heights` (property C15): controller height, bounded instance container, highest-instance store, duty guard, restart.
 Core Lean only (linked into the native driver `m_heights`).
 
-What is modelled, function by function (pinned tree):
+What is modelled, function by function (current tree, i.e. WITH the fixes 358626700 (store `replaces` guard),
+26e2e6b00 (reloaded instance kept) and c50569811 (a duty that holds a decided value counts as previously decided);
+the semantics before the first two fixes are kept in Ssv/Model/HeightsOld.lean for the regression lemmas):
 * protocol/v2/qbft/controller/types.go        `InstanceContainer.FindInstance`, `addNewInstance`, `reset`
 * protocol/v2/qbft/controller/controller.go   `NewController`, `StartNewInstance`, `forceStopAllInstanceExceptCurrent`,
                                               `ProcessMsg` (routing only), `InstanceForHeight` (incl. the full-node reload from storage)
@@ -71,6 +73,8 @@ structure Runner where
   runDecided : Bool
   /-- `highestDecidedSlot` -/
   hds : Nat
+  /-- `State.DecidedValue != nil` -/
+  hasValue : Bool
 deriving DecidableEq, Repr, Inhabited
 
 structure State where
@@ -135,11 +139,21 @@ def histPut (h : Nat) (s : Stored) : List (Nat × Stored) → List (Nat × Store
     else if h < k then (h, s) :: (k, v) :: rest
     else (k, v) :: histPut h s rest
 
-/-- `ibftStorage.saveInstance(inst, toHistory, asHighest)` -/
+/-- `replaces(prev, next)`: a stored record is only replaced by one for a higher height or, at the same height, by a
+    certificate with more signers -/
+def replaces (prev : Option Stored) (next : Stored) : Bool :=
+  match prev with
+  | none => true
+  | some p =>
+    if p.inst.height ≠ next.inst.height then decide (p.inst.height < next.inst.height)
+    else decide (p.cert.signers.length < next.cert.signers.length)
+
+/-- `ibftStorage.saveInstance(inst, toHistory, asHighest)`: CompactCopy, then each key is written only if `replaces` -/
 def storeSave (st : Store) (rec : Stored) (toHistory asHighest : Bool) : Store :=
   let rec' : Stored := { rec with inst := { trim rec.inst with stopped := false } }
-  { highest := if asHighest then some rec' else st.highest,
-    hist := if toHistory then histPut rec'.inst.height rec' st.hist else st.hist }
+  { highest := if asHighest && replaces st.highest rec' then some rec' else st.highest,
+    hist := if toHistory && replaces (histGet st.hist rec'.inst.height) rec' then histPut rec'.inst.height rec' st.hist
+            else st.hist }
 
 /-- `Controller.SaveInstance(i, msg)`; `msg.Height = i.height` at both call sites -/
 def saveInstance (c : Ctrl) (st : Store) (i : Inst) (m : Msg) : Store :=
@@ -179,19 +193,22 @@ def instanceForHeight (c : Ctrl) (st : Store) (h : Nat) : Option (Inst × Bool) 
 inductive DOut | err | new | dup
 deriving DecidableEq, Repr
 
-/-- the three branches of `UponDecided` (no instance / instance not decided / decided before):
-    (container afterwards, `save`).  A mutation of an instance that was only reloaded from storage is lost
-    (the temporary object is not in `StoredInstances`). -/
+/-- `UponDecided` up to the save block: (container afterwards, `save`).
+    An instance that `InstanceForHeight` reloaded from storage (`inMem0 = false`) is first put into the container
+    (`addNewInstance`; it may not fit — then it stays a temporary object and its mutation is lost) and is always saved.
+    Then the three branches: no instance / instance not decided / decided before (per-(round, root) comparison). -/
 def decidedBranch (c : Ctrl) (st : Store) (h : Nat) (m : Msg) : List Inst × Bool :=
   match instanceForHeight c st h with
   | none => (addNew c.insts ⟨h, m.round, true, false, [m]⟩, true)
-  | some (i, inMem) =>
+  | some (i, inMem0) =>
+    let insts0 := if inMem0 then c.insts else addNew c.insts i
+    let inMem := (find insts0 h).isSome
     if !i.decided then
-      (if inMem then replaceInst { i with decided := true, round := m.round, commits := i.commits ++ [m] } c.insts
-       else c.insts, true)
+      (if inMem then replaceInst { i with decided := true, round := m.round, commits := i.commits ++ [m] } insts0
+       else insts0, true)
     else if longest i.commits m.round m.root < m.signers.length then
-      (if inMem then replaceInst { i with commits := i.commits ++ [m] } c.insts else c.insts, true)
-    else (c.insts, false)
+      (if inMem then replaceInst { i with commits := i.commits ++ [m] } insts0 else insts0, true)
+    else (insts0, !inMem0)
 
 def prevDecidedOf (c : Ctrl) (st : Store) (h : Nat) : Bool :=
   match instanceForHeight c st h with
@@ -288,19 +305,20 @@ inductive Op
 deriving DecidableEq, Repr
 
 def newCtrl (full : Bool) : Ctrl := ⟨Gen.heights_FirstHeight, [], full⟩
-def newRunner : Runner := ⟨none, none, false, 0⟩
+def newRunner : Runner := ⟨none, none, false, 0, false⟩
 
 def init (full : Bool) (q : Nat) : State := ⟨q, newCtrl full, newRunner, ⟨none, []⟩⟩
 
 /-- `baseStartNewDuty` up to (not including) `executeDuty` -/
 def beginStep (s : State) (slot : Nat) : State × Out :=
   if guardRefuses s.c slot then (s, .guard)
-  else ({ s with r := { s.r with duty := some slot, running := none, runDecided := false } }, .ok)
+  else ({ s with r := { s.r with duty := some slot, running := none, runDecided := false, hasValue := false } }, .ok)
 
 /-- `didDecideCorrectly` + the guard before it, for the outcome `o` of `ProcessMsg`: does the runner go on to its own
     `SaveInstance` and to the `highestDecidedSlot` update? -/
 def runnerSaves (r : Runner) (h : Nat) (o : DOut) : Bool :=
-  let prevDecided := r.duty.isSome && r.running.isSome && r.runDecided
+  -- prevDecided: the running instance object is decided, or the duty already holds a decided value
+  let prevDecided := r.duty.isSome && ((r.running.isSome && r.runDecided) || r.hasValue)
   o == .new && r.duty.isSome && r.running == some h && !prevDecided
 
 /-- error / nil of `ProcessConsensus` (values are valid consensus data, so nothing after `didDecideCorrectly` fails) -/
@@ -322,7 +340,8 @@ def decidedViaRunner (s : State) (h : Nat) (m : Msg) (ok : Bool) : State × Out 
   let saves := runnerSaves s.r h p.2.2
   ({ s with c := c2,
             s := if saves then saveFound c2 p.2.1 h m else p.2.1,
-            r := if saves then { r2 with hds := h } else r2 },
+            -- decoded, highestDecidedSlot set, value valid: State.DecidedValue set
+            r := if saves then { r2 with hds := h, hasValue := true } else r2 },
    runnerOut s.r h p.2.2)
 
 def decidedViaCtrl (s : State) (h : Nat) (m : Msg) (ok : Bool) : State × Out :=
@@ -354,7 +373,7 @@ def decidedViaRunnerSF (s : State) (h : Nat) (m : Msg) (ok : Bool) : State × Ou
   let saves := runnerSaves s.r h p.2.2
   ({ s with c := c2,
             s := if saves && consumed then saveFound c2 s.s h m else s.s,
-            r := if saves then { r2 with hds := h } else r2 },
+            r := if saves then { r2 with hds := h, hasValue := true } else r2 },
    runnerOut s.r h p.2.2)
 
 /-- commit messages of operators 1..q for (round 1, root), as `AddFirstMsgForSignerAndRound` files them -/
@@ -363,7 +382,8 @@ def singles (q root : Nat) : List Msg := (List.range' 1 q).map (fun k => ⟨Gen.
 /-- `commits`: applicable to a running, fresh instance that is still in the container. The q-th commit completes the
     quorum: the instance decides, `UponExistingInstanceMsg` returns the aggregate of the q commits, and
     `baseConsensusMsgProcessing` saves the instance (`SaveInstance`) and sets `highestDecidedSlot` BEFORE it validates
-    the decided value — so the value check only decides error / nil of `ProcessConsensus`. -/
+    the decided value — so the value check only decides error / nil of `ProcessConsensus` and whether
+    `State.DecidedValue` gets set. -/
 def commitsStep (s : State) (root : Nat) (valOk : Bool) : State × Out :=
   match s.r.duty, s.r.running with
   | some _, some rh =>
@@ -373,8 +393,13 @@ def commitsStep (s : State) (root : Nat) (valOk : Bool) : State × Out :=
         let i' : Inst := { i with decided := true, commits := singles s.q root }
         let c' : Ctrl := { s.c with insts := replaceInst i' s.c.insts }
         let cert : Msg := ⟨Gen.heights_FirstRound, root, List.range' 1 s.q⟩
-        ({ s with c := c', s := saveFound c' s.s rh cert, r := { syncRun s.r c' with hds := rh } },
-          if valOk then .cok else .cerr)
+        if s.r.hasValue then
+          -- the duty already holds a decided value: `prevDecided`, so `didDecideCorrectly` stops before the save
+          ({ s with c := c', r := syncRun s.r c' }, .cok)
+        else
+          ({ s with c := c', s := saveFound c' s.s rh cert,
+                    r := { syncRun s.r c' with hds := rh, hasValue := valOk } },
+            if valOk then .cok else .cerr)
       else (s, .na)
     | none => (s, .na)
   | _, _ => (s, .na)
